@@ -30,7 +30,7 @@ ASSUMPTIONS = [
 ]
 REQUIRED_COUNTERS = ["runs", "calls.concurrent", "overlapping_pairs", "yields_injected", "lines_seen",
                      "threads.2", "threads.4", "threads.8", "shape.shared_node", "shape.t.Object",
-                     "trees.parsed", "quiescence.tree_unchanged", "calls.accepted", "calls.rejected", "runs.cold_tree", "cold_process.calls", "format_runs.calls", "numeric_runs.calls"]
+                     "trees.parsed", "quiescence.tree_unchanged", "calls.accepted", "calls.rejected", "runs.cold_tree", "cold_process.calls", "format_runs.calls", "numeric_runs.calls", "default_runs.calls"]
 
 ANCHORS = [
     "statham.schema.property:_Property.bind",
@@ -347,6 +347,42 @@ def numeric_runs(ctx, sut, fpm, injector):
                     return
 
 
+def default_runs(ctx, sut, fpm, injector):
+    """Threads building objects that OMIT members whose schemas declare container defaults (the default is
+    state of the shared tree: every thread must get its own converted copy, and the tree keeps the literal)."""
+    rng = ctx.rng
+    inner = sut.Object.inline("DefInner", properties={"v": sut.Property(sut.Number())})
+    element = sut.Element(properties={
+        "tags": sut.Property(sut.Array(sut.Number(), default=[1, 2])),
+        "objs": sut.Property(sut.Array(inner, default=[{"v": 1}, {"v": 2}])),
+        "tup": sut.Property(sut.Array([sut.Number(), sut.String()], default=[3, "s"])),
+        "plain": sut.Property(sut.Element(default={"k": [1]}))})
+    pool = [{}, {"tags": [5]}, {"objs": []}, {"tup": [1, "x"]}, {"plain": 1}, {"tags": [1], "objs": [{"v": 3}]}]
+    for _ in range(2):
+        nthreads = rng.choice([3, 6])
+        lists = [[copy.deepcopy(rng.choice(pool)) for _ in range(12)] for _ in range(nthreads)]
+        before = fpm.fp_config(element)
+        base = [sequential(sut, fpm, element, lst) for lst in lists]
+        records, errors, stuck = concurrent(sut, fpm, element, lists, injector, 0.05)
+        if stuck or errors:
+            ctx.inconclusive_reason("default run: threads stuck or harness error " + str(errors[:1]))
+            return
+        ctx.count("default_runs")
+        if fpm.fp_config(element) != before:
+            ctx.witness("tree_changed_at_quiescence", {"default_run": True},
+                        "the element tree (its defaults) differs after validating objects that omit members")
+            return
+        for tid, recs in enumerate(records):
+            for pos, (_s, _e, outcome, fp) in enumerate(recs):
+                ctx.evaluation()
+                ctx.count("default_runs.calls")
+                want = base[tid][pos]
+                if outcome != want[0] or (outcome == "ok" and fp != want[1]):
+                    ctx.witness("concurrent_differs_from_sequential", {"default_run": True, "value": lists[tid][pos]},
+                                f"thread {tid} call {pos}: concurrent -> {outcome}; alone -> {want[0]}")
+                    return
+
+
 def run_shard(ctx):
     from vlib import fingerprint as fpm  # pylint: disable=import-outside-toplevel
     from vlib import monitors, sut  # pylint: disable=import-outside-toplevel
@@ -358,6 +394,7 @@ def run_shard(ctx):
     try:
         format_runs(ctx, sut, fpm, injector)
         numeric_runs(ctx, sut, fpm, injector)
+        default_runs(ctx, sut, fpm, injector)
         for idx in range(ctx.params["runs"]):
             one_run(ctx, sut, fpm, monitors, injector, ctx.rng, idx)
     finally:
@@ -374,10 +411,11 @@ def replay(case, ctx):
     injector = monitors.YieldInjector(0.0, "replay")
     injector.start()
     try:
-        if case.get("numeric_run") or case.get("format_run"):
+        if case.get("numeric_run") or case.get("format_run") or case.get("default_run"):
             # these scenarios use fixed elements and pools: run them again (several times)
             for _ in range(10):
-                (numeric_runs if case.get("numeric_run") else format_runs)(ctx, sut, fpm, injector)
+                (numeric_runs if case.get("numeric_run") else
+                 default_runs if case.get("default_run") else format_runs)(ctx, sut, fpm, injector)
             return
         spec = case.get("spec")
         element = gen_dsl.build(spec) if spec else sut.parse_direct(case["schema"])
